@@ -11,7 +11,7 @@
 //        result: iterator state  k=v | end ; remove: R1:<v> | R0 ; w<n> appended when qpdf warned;
 //        "err:<class>" when an exception escaped
 //        dump  : node = <limits|_> then [k=v,...] if it has the items key and (...) if it has /Kids
-//        keys in dumps of name trees are h<hex of getUTF8Value()>.
+//        keys in dumps of name trees are h<hex of getUTF8Value()> (kind "namespell": h<hex of the stored bytes>).
 #include "drv.hh"
 #include <qpdf/QPDF.hh>
 #include <qpdf/QPDFExc.hh>
@@ -28,13 +28,14 @@ namespace
     {
         bool names;
         QPDF q;
+        bool rawdump{false}; // kind "namespell": dumps show the stored bytes of the keys instead of their UTF-8 values
     };
 
     std::string key_text(Ctx& c, QPDFObjectHandle k)
     {
         if (c.names) {
             if (!k.isString()) return "?";
-            std::string h = hex(k.getUTF8Value());
+            std::string h = hex(c.rawdump ? k.getStringValue() : k.getUTF8Value());
             return "h" + (h == "-" ? std::string() : h);
         }
         if (!k.isInteger()) return "?";
@@ -289,7 +290,8 @@ static Reg r_nn("nn", [](std::vector<std::string> const& a) -> std::string {
     Ctx c;
     // "nameraw": same as "name" (the stored keys of the starting tree are raw string bytes in either case); the
     // model side of these cases runs on the stored strings with the modelled compareKeys (Struct/NNKeys.v)
-    c.names = a.at(0) == "name" || a.at(0) == "nameraw";
+    c.names = a.at(0) == "name" || a.at(0) == "nameraw" || a.at(0) == "namespell";
+    c.rawdump = a.at(0) == "namespell";
     c.q.emptyPDF();
     c.q.setSuppressWarnings(true);
     int t = std::stoi(a.at(1));
